@@ -1,5 +1,5 @@
 CONSTANTS
-  REPAIRED = FALSE
+  REPAIRED = TRUE
   IntLen = 4
   IntAlpha = {"0", "1", "7", "9", "-", "+", "L", "sp", "e0", "e7", "eL"}
   LitPre <- LitPreD
